@@ -1,6 +1,9 @@
 import GBProofs.Props.C11
 import GBProofs.Layout
+import GBProofs.EriIntegral
 /-! C11: with `Layout.entry2_layout` the model's array for any listing of the shells is, entry by entry,
 the block of the two shells the indices belong to — computed in that orientation; reordering the shells
-therefore permutes indices by construction of the model, and the block symmetries of `Props/C11.lean`
-justify the code's filling by symmetry. -/
+therefore permutes indices by construction of the model, and the block symmetries justify the code's
+filling by symmetry: `overlapMat_symm`, `kineticMat_symm`, `pointChargeMat_symm` (`Definiteness.lean`) and the
+three generators of the eight-fold symmetry of the electron-repulsion block, `eriBlock_swap_ab`,
+`eriBlock_swap_cd`, `eriBlock_swap_electrons` (`EriIntegral.lean`), all proved for the model's blocks. -/
